@@ -160,7 +160,7 @@ def coq_term(case, obs):
 
 
 CLAIM = {
-    'text': "Theorems (Coq) for every list of n >= 1 branches (arbitrary refined machines), the three joins and every input: slot-level tee (shared queue, cells at key[0]*n+i) refines the per-key product with n private cells; inside the tee every branch evolves exactly as when run alone; the timed tee output is the join folded over source events (branch order within an event) of the independently run branches' outputs, and at completion the join of their completion outputs; the joins are characterised per mode; tee_map on a PLAIN observable, written as list functions (the join folded over the source items of the branches' own timed plain outputs), equals the per-key local machine of the multiplexed tee_map step by step (C08_plain_tee_equals_keyed_tee; branches without take/first), and the real plain tee runs are compared with that list semantics step by step. Oracle: every branch is ALSO run alone on the real code and joined by a Python join spec, per key and per source event; plain tee included.",
+    'text': "Theorems (Coq) for every list of n >= 1 branches (arbitrary refined machines), the three joins and every input: slot-level tee (shared queue, cells at key[0]*n+i) refines the per-key product with n private cells; inside the tee every branch evolves exactly as when run alone; the timed tee output is the join folded over source events (branch order within an event) of the independently run branches' outputs, and at completion the join of their completion outputs; the joins are characterised per mode; tee_map on a PLAIN observable, written as list functions (the join folded over the source items of the branches' own timed plain outputs), equals the per-key local machine of the multiplexed tee_map step by step (C08_plain_tee_equals_keyed_tee), and the real plain tee runs are compared with that list semantics step by step. Oracle: every branch is ALSO run alone on the real code and joined by a Python join spec, per key and per source event; plain tee included.",
     'note': 'Trusted: Coq kernel+VM; hand-written model; branches must not leak unhandled mux errors upstream of the tee (errors_handled).',
     'technique': 'Coq proof (forward-simulation refinement of a slot-level model by per-key local machines, list-level induction) + vm_compute correspondence against /repo + model-free oracle',
 }
